@@ -56,9 +56,20 @@ def cases(draw, nmax=48):
     zi = draw(st.booleans())
     if zi and abs(z) >= 1:
         z = int(round(z))
+    # coincidences between quantities of the same dimension that independent random floats never produce: the requested
+    # output spacing (nearly) equal to the natural spacing of the single-FFT propagator, to the input spacing, or the
+    # distance at the critical-sampling value N d1^2 / wvl
+    coin = draw(st.sampled_from([None, None, None, None, "d2_one_step", "d2_near_d1", "z_critical"]))
+    eps = draw(st.sampled_from([0.0, 1e-12, -1e-10, 1e-8, -1e-7, 3e-6, -8e-6, 1e-4, -1e-3]))
+    if coin == "z_critical":
+        z = math.copysign(N * d1 * d1 / wvl * (1 + eps), z)
+    elif coin == "d2_one_step":
+        m = abs(wvl * z / (N * d1)) / d1 * (1 + eps)
+    elif coin == "d2_near_d1":
+        m = 1 + eps
     return {"u": u, "v": v, "kind": kind, "prop": prop, "wvl": wvl, "d1": d1, "z": z, "m": m,
             "a": complex(draw(gen.dyadic(-2, 2, 8)), draw(gen.dyadic(-2, 2, 8))), "b": complex(draw(gen.dyadic(-2, 2, 8)), draw(gen.dyadic(-2, 2, 8))),
-            "np_scalars": draw(st.booleans()), "single": draw(st.sampled_from([False, False, False, True]))}
+            "np_scalars": draw(st.booleans()), "single": draw(st.sampled_from([False, False, False, True])), "coin": coin}
 
 
 def run_prop(case, U):
@@ -89,7 +100,7 @@ def body(ctx, case):
     const = bool(np.all(u == u.flat[0]))
     ctx.case(case, nontrivial=(not const) and (case["m"] != 1.0 or case["z"] < 0),
              classes=[case["prop"], case["kind"], "m1" if case["m"] == 1.0 else "m_ne_1", "z_neg" if case["z"] < 0 else "z_pos",
-                      "np_scalars" if case["np_scalars"] else "py_scalars"])
+                      "np_scalars" if case["np_scalars"] else "py_scalars"] + (["coincidence_" + case["coin"]] if case.get("coin") else []))
     u0 = u.copy()
     # history first: calls whose scalar arguments differ from the case's by a few parts in 1e4 (same field, same grid);
     # everything asserted below is asserted on a call that FOLLOWS them, so nothing may be inherited from them
